@@ -18,7 +18,7 @@ from checks import a2mlgen as g
 from checks import loadlib
 
 PROP = 'C18'
-TARGETS = ['theories/Proofs/IfdataProofs.v', 'theories/Proofs/IfdataCleanupProofs.v', 'theories/Run/RunLoad.v', 'theories/Proofs/IfdataRoundTripProofs.v', 'theories/Proofs/IfdataFollowProofs.v', 'theories/Proofs/IfdataTextProofs.v']
+TARGETS = ['theories/Proofs/IfdataProofs.v', 'theories/Proofs/IfdataCleanupProofs.v', 'theories/Run/RunLoad.v', 'theories/Proofs/IfdataRoundTripProofs.v', 'theories/Proofs/IfdataFollowProofs.v', 'theories/Proofs/IfdataTextProofs.v', 'theories/Proofs/IfdataBlockProofs.v']
 
 # definitions the ASAM grammar allows and the library's A2ML parser rejects (known findings, one key each)
 REJECTED_DEFINITIONS = {
